@@ -366,7 +366,7 @@ def stage_b(ctx, procs):
     # ---- (1) ill-formed schema family
     (names, items), (tnames, titems) = K.par([
         lambda: c11.enum_run(ctx, 'illformed', ctx.pick(19, 1), procs, tag='b'),
-        lambda: c11.enum_run(ctx, 'trees', ctx.pick(5, 1), ctx.pick(2, procs), maxnodes=ctx.pick(3, 4), maxlen=2,
+        lambda: c11.enum_run(ctx, 'trees', ctx.pick(5, 1), ctx.pick(2, procs), maxnodes=3, maxlen=2,
                              corrupt='parent', tag='t')])
     seen = {}
     for it in items:
